@@ -1128,6 +1128,30 @@ def failing_variants(w, rng, st):
             out.append({'template': 'storage_on_substrate', 'call': 'add_storage', 'node': st.name(n), 'name': 'vol9',
                         'id': nid()})
     if sub:
+        links = st.of_class('Link')
+        cands = [(a, b, cp) for a, b, cp in all_ifaces(st) if st.typ(cp) != 'ServicePort']
+        two = [{'node': a, 'if': b} for a, b, _ in cands[:2]]
+        if links and len(two) == 2:
+            out.append({'template': 'dup_link_name', 'call': 'add_link', 'name': st.name(rng.choice(links)),
+                        'ltype': 'L2Path', 'ifs': two, 'id': nid()})
+        out.append({'template': 'link_without_interfaces', 'call': 'add_link', 'name': 'lX', 'ltype': 'L2Path',
+                    'ifs': [], 'id': nid()})
+        if len(two) == 2 and anyid:
+            out.append({'template': 'dup_link_id', 'call': 'add_link', 'name': 'lX', 'ltype': 'Patch', 'ifs': two,
+                        'id': rng.choice(anyid)})
+        for n, x in node_services(st)[:2]:
+            cps = st.cps_of_service(x)
+            if cps:
+                out.append({'template': 'dup_interface_name', 'call': 'svc_add_interface', 'node': st.name(n),
+                            'svc': st.name(x), 'name': st.name(rng.choice(cps)), 'itype': 'TrunkPort', 'id': nid(),
+                            'kw': {}})
+            out.append({'template': 'bad_interface_kwarg', 'call': 'svc_add_interface', 'node': st.name(n),
+                        'svc': st.name(x), 'name': 'tpX', 'itype': 'TrunkPort', 'id': nid(), 'kw': {'capacities': 'x'}})
+            if anyid:
+                out.append({'template': 'dup_interface_id', 'call': 'svc_add_interface', 'node': st.name(n),
+                            'svc': st.name(x), 'name': 'tpX', 'itype': 'TrunkPort', 'id': rng.choice(anyid), 'kw': {}})
+            out.append({'template': 'dup_node_service_name', 'call': 'node_add_network_service', 'node': st.name(n),
+                        'name': st.name(x), 'nstype': 'MPLS', 'id': nid()})
         return out
     # ---- services (experiment flavour)
     tops = top_services(st)
